@@ -2,10 +2,9 @@
    Property theorems only.  Model: Model/Condorcet.v; proofs: Proofs/Condorcet_proofs.v.
 
    Proved for every pairwise dictionary (distinct keys, non-negative counts, absent
-   pair = 0): Copeland (raw and second-order), minimax (winning votes, margins) and
-   ranked pairs elect the Condorcet winner alone; Kemeny-Young returns the Condorcet
-   winner or its declared refusal; defining computations of Copeland, Kemeny-Young
-   (unique best permutation) and ranked pairs (locked total order); nobody dropped for
+   pair = 0): Copeland (raw and second-order), minimax (winning votes, margins),
+   ranked pairs and Kemeny-Young elect the Condorcet winner alone; defining computations
+   of Copeland, Kemeny-Young (common first places of the best permutations) and ranked pairs (locked total order); nobody dropped for
    minimax, ranked pairs, Kemeny-Young.  The remaining clauses (Schulze, Smith-efficiency
    of ranked pairs / Kemeny) are stated below as full statements and are decided per
    case by the verified-model correspondence plus brute-force references in the check
@@ -74,34 +73,38 @@ Proof. vm_compute. reflexivity. Qed.
 From Coq Require Import Permutation Sorted Lia.
 From VL Require Import Proofs.Kemeny_proofs Proofs.RankedPairs_proofs.
 
-(* Kemeny-Young, Condorcet winner: for EVERY pairwise dictionary the answer for one seat is the Condorcet winner or the
-   evaluator's refusal (NotImplementedError of Tie.tie_rankings when several rankings share the best score) - never another
-   candidate: the winner heads every best ranking because moving it to the front gains votes. *)
+(* Kemeny-Young, Condorcet winner (non-negative counts): the winner heads every best ranking because moving it to the
+   front gains votes, all best rankings therefore agree on the first place, and the evaluator answers with it. *)
 Theorem C05_cw_kemeny : forall (v : pvotes) c,
-  is_cw v c -> kemeny v 1 = CR_ok [Cand c] \/ kemeny v 1 = CR_nie.
-Proof. exact kemeny_elects_cw. Qed.
+  (forall p n, In (p, n) v -> 0 <= n) -> is_cw v c -> kemeny v 1 = CR_ok [Cand c].
+Proof. intros v c Hnn. apply kemeny_elects_cw, pget0_nn, Hnn. Qed.
 
-(* defining computation: an answer is the first n entries of THE ranking of all candidates whose Kemeny score is >= that
-   of every ranking and > that of every other ranking ... *)
+(* defining computation: an answer is the first n places of a ranking of all candidates with the greatest Kemeny score,
+   and ALL rankings with the greatest score have the same first n places ... *)
 Theorem C05_kemeny_defining : forall (v : pvotes) n r, kemeny v n = CR_ok r ->
   exists p, Permutation p (candidates v) /\ r = map Cand (firstn n p) /\
     (forall q, Permutation q (candidates v) -> kemeny_score v q <= kemeny_score v p) /\
-    (forall q, Permutation q (candidates v) -> q <> p -> kemeny_score v q < kemeny_score v p).
+    (forall q, kemeny_max v q -> firstn n q = firstn n p).
 Proof.
-  intros v n r H. destruct (kemeny_defining v n r H) as (p & (Hp & Hge & Hgt) & _ & Hr). exists p. tauto.
+  intros v n r H. destruct (kemeny_defining v n r H) as (p & (Hp & Hge) & _ & Hr & Hall). exists p. tauto.
 Qed.
 
-(* ... and conversely the evaluator answers with it whenever such a ranking exists, and refuses exactly when none does
+(* ... conversely the evaluator answers whenever the best rankings agree on the first n places, and it refuses
+   (NotImplementedError of Tie.tie_rankings) exactly when two best rankings differ within the first n places
    (counts non-negative: the scan starts from best_score = 0) *)
-Theorem C05_kemeny_answers : forall (v : pvotes) n p, (forall q, 0 <= pget0 v q) ->
-  kemeny_best v p -> kemeny v n = CR_ok (map Cand (firstn n p)).
-Proof. intros v n p Hnn Hb. apply kemeny_complete; [exact Hb|apply kemeny_score_nonneg, Hnn]. Qed.
+Theorem C05_kemeny_answers : forall (v : pvotes) n p, (forall q m, In (q, m) v -> 0 <= m) ->
+  kemeny_max v p -> (forall q, kemeny_max v q -> firstn n q = firstn n p) ->
+  kemeny v n = CR_ok (map Cand (firstn n p)).
+Proof.
+  intros v n p Hnn Hb Hall. apply kemeny_complete; [exact Hb|apply kemeny_score_nonneg, pget0_nn, Hnn|exact Hall].
+Qed.
 
 Theorem C05_kemeny_refusal : forall (v : pvotes) n, (forall p m, In (p, m) v -> 0 <= m) ->
-  (kemeny v n = CR_nie <-> ~ exists p, kemeny_best v p) /\ (kemeny v n = CR_nie \/ exists r, kemeny v n = CR_ok r).
+  (kemeny v n = CR_nie <-> exists p q, kemeny_max v p /\ kemeny_max v q /\ firstn n p <> firstn n q) /\
+  (kemeny v n = CR_nie \/ exists r, kemeny v n = CR_ok r).
 Proof.
   intros v n Hnn. split; [apply kemeny_refuses_iff, pget0_nn, Hnn|].
-  destruct (kemeny_cases v n) as [(p & Hp)|H]; [right; eexists; exact Hp|left; exact H].
+  destruct (kemeny_cases v n) as [(p & _ & Hp)|H]; [right; eexists; exact Hp|left; exact H].
 Qed.
 
 Theorem C05_kemeny_nobody_dropped : forall (v : pvotes) r x,
@@ -113,28 +116,16 @@ Theorem C05_permutations : forall (l p : list C),
   (In p (permutations l) <-> Permutation p l) /\ (NoDup l -> NoDup (permutations l)).
 Proof. intros l p. split; [apply permutations_spec|apply permutations_NoDup]. Qed.
 
-(* the Kemeny clause of C05_cw_full_statement (an answer, not a refusal) is FALSE of the evaluator: a Condorcet winner
-   followed by a tie makes it refuse (KemenyYoung().evaluate raises NotImplementedError on this dictionary) *)
+(* the dictionary on which the unrepaired evaluator refused although 1 is the Condorcet winner (2 and 3 tie below it):
+   one seat is now answered, two or three seats are still refused because the best rankings 1>2>3 and 1>3>2 differ there *)
 Definition C05_kemeny_tied_tail : pvotes :=
   [((1%positive, 2%positive), 3); ((2%positive, 1%positive), 1);
    ((1%positive, 3%positive), 3); ((3%positive, 1%positive), 1);
    ((2%positive, 3%positive), 2); ((3%positive, 2%positive), 2)].
-Theorem C05_cw_kemeny_answer_refuted : exists v c, well_formed v /\ is_cw v c /\ kemeny v 1 = CR_nie.
-Proof.
-  exists C05_kemeny_tied_tail, 1%positive. split; [|split].
-  - split; [|split].
-    + vm_compute. repeat (constructor; [simpl; intros H; repeat (destruct H as [H|H]; [discriminate H|]); exact H|]). constructor.
-    + intros p n H. vm_compute in H. repeat (destruct H as [H|H]; [injection H as _ <-; lia|]). destruct H.
-    + vm_compute. lia.
-  - split; [vm_compute; tauto|]. intros x Hx Hne. vm_compute in Hx.
-    destruct Hx as [<-|[<-|[<-|[]]]]; [congruence|vm_compute; reflexivity|vm_compute; reflexivity].
-  - vm_compute. reflexivity.
-Qed.
-Theorem C05_cw_full_statement_refuted : ~ C05_cw_full_statement.
-Proof.
-  intros H. destruct C05_cw_kemeny_answer_refuted as (v & c & Hw & Hc & Hk).
-  destruct (H v c Hw Hc) as (_ & _ & _ & _ & _ & Hk'). rewrite Hk in Hk'. discriminate.
-Qed.
+Example C05_kemeny_tied_tail_example :
+  kemeny C05_kemeny_tied_tail 1 = CR_ok [Cand 1%positive] /\
+  kemeny C05_kemeny_tied_tail 2 = CR_nie /\ kemeny C05_kemeny_tied_tail 3 = CR_nie.
+Proof. vm_compute. auto. Qed.
 
 (* Ranked pairs (all three pairwise scorers): the evaluator never refuses; its answer lists ALL candidates along the
    locked relation, which is a strict total order (every candidate precedes exactly those it is locked over) ... *)
@@ -166,6 +157,19 @@ Theorem C05_ranked_pairs_nobody_dropped : forall (v : pvotes) s, (2 <= length (c
   exists r, ranked_pairs s v (length (candidates v)) = CR_ok r /\ forall x, In x (candidates v) -> In (Cand x) r.
 Proof. intros v s H2. exact (ranked_pairs_nobody_dropped v s H2). Qed.
 
+(* every conjunct of C05_cw_full_statement except the Schulze one *)
+Theorem C05_cw_all_but_schulze : forall v c, well_formed v -> is_cw v c ->
+  first_is (minimax WinningVotes v 1) c /\ first_is (minimax Margins v 1) c /\
+  ranked_pairs WinningVotes v 1 = CR_ok [Cand c] /\ ranked_pairs Margins v 1 = CR_ok [Cand c] /\
+  kemeny v 1 = CR_ok [Cand c].
+Proof.
+  intros v c (Hnd & Hnn & H2) Hcw.
+  split; [exists []; apply C05_cw_minimax; auto; discriminate|].
+  split; [exists []; apply C05_cw_minimax; auto; discriminate|].
+  split; [apply C05_cw_ranked_pairs; assumption|]. split; [apply C05_cw_ranked_pairs; assumption|].
+  apply C05_cw_kemeny; assumption.
+Qed.
+
 (* non-vacuity: a profile with a Condorcet winner and a unique best ranking *)
 Definition C05_kemeny_example : pvotes :=
   [((2%positive, 3%positive), 5); ((3%positive, 2%positive), 1);
@@ -191,9 +195,8 @@ Print Assumptions C05_kemeny_answers.
 Print Assumptions C05_kemeny_refusal.
 Print Assumptions C05_kemeny_nobody_dropped.
 Print Assumptions C05_permutations.
-Print Assumptions C05_cw_kemeny_answer_refuted.
-Print Assumptions C05_cw_full_statement_refuted.
 Print Assumptions C05_ranked_pairs_defining.
 Print Assumptions C05_ranked_pairs_lock.
 Print Assumptions C05_cw_ranked_pairs.
 Print Assumptions C05_ranked_pairs_nobody_dropped.
+Print Assumptions C05_cw_all_but_schulze.
